@@ -151,3 +151,39 @@ Example c13_scenario_witness :
   = ([SK 2; SNone; SE; SK 0; SNone; SK 1], [[97;98]; [104]],
      {| bytes_sent := 3; packets_sent := 2; bytes_dropped := 1; packets_dropped := 1 |})%N.
 Proof. vm_compute. split; reflexivity. Qed.
+
+(* ==== added after the audit of 2026-10-02 (selftest/audit/REPORT-2026-10-02.md) ==== *)
+(* ------------------------------------------------------------------ audit A.6 / A.10 additions *)
+Require Import Cadence.Proofs.AuditS.
+
+(* a flush at any position of any scenario on a buffered socket sink, with or without a queuing
+   wrapper in front (QueuingMetricSink::flush calls the wrapped sink's flush), is answered by the
+   writer's own flush of that moment: Ok when the listener is there or nothing is pending, the
+   socket's error when lines are pending and the listener is away *)
+Theorem c13_flush_answer : forall co q pre post rs0 s n up,
+  sc_buf q true (sink_init co []) 0 pre = (rs0, s, n, up) ->
+  nth_error (fst (fst (sc_buffered co q (pre ++ SFlush :: post)))) (length pre) =
+  Some (match fst (step (with_script s up) n Flush) with OOk k => SK (N.of_nat k) | _ => SE end) /\
+  fst (step (with_script s up) n Flush) =
+    if up || match bbuf s with [] => true | _ => false end then OOk 0 else OErr 0.
+Proof. exact sc_buffered_flush_at. Qed.
+
+(* the queuing wrapper changes answers only: same datagrams (final drop included), same statistics *)
+Theorem c13_queuing_same_wire : forall co q1 q2 ops,
+  snd (fst (sc_buffered co q1 ops)) = snd (fst (sc_buffered co q2 ops)) /\
+  snd (sc_buffered co q1 ops) = snd (sc_buffered co q2 ops).
+Proof. exact sc_buffered_queued_same_wire. Qed.
+
+(* content for "exactly one send per emit, the metric's bytes, the OS's answer" (c13_one_send
+   restates the body of sock_emit): the unbuffered sink, specified by sock_emit, and the
+   independently specified line-buffering writer agree where they must - a buffered socket sink of
+   capacity 0 (every metric oversized: sent alone, unterminated, during its own emit) gives the same
+   answers, the same datagrams and the same statistics as the unbuffered sink, for every scenario
+   of emits, flushes and outages, with or without a queuing wrapper *)
+Theorem c13_capacity0_is_unbuffered : forall q ops, sc_buffered (Some 0) q ops = sc_unbuffered q ops.
+Proof. exact buffered_cap0_is_unbuffered. Qed.
+Example c13_capacity0_witness :
+  sc_buffered (Some 0) false [SEmit [1;2]; SDown; SEmit [3]; SFlush; SUp; SEmit []]%N =
+  ([SK 2; SNone; SE; SK 0; SNone; SK 0], [[1;2]; []]%N,
+   {| bytes_sent := 2; packets_sent := 2; bytes_dropped := 1; packets_dropped := 1 |})%N.
+Proof. vm_compute. reflexivity. Qed.
